@@ -2,6 +2,17 @@
 HOOK_COMMITS = []
 NOT_APPLICABLE = {}
 LEVELS = {
+    "C13": {
+        "text": "Proof: C13_atomic_save — for all old/new encodings and every crash point (any prefix of create-tmp, write, fsync, rename; "
+                "any partial write; loss of un-synced data) the final path shows exactly the old or exactly the complete new file; "
+                "C13_persist_order_pinned ties the step order to PersistToDisk's source on every run; C13_replay / C13_saved_height / "
+                "C13_commit_pure give replay determinism from the saved height. Partial: gob round-trip fidelity is a library/runtime "
+                "fact and is checked (save→load→compare→continue both, at commit points of every history), not proved; real fsync/rename "
+                "durability is the OS's, one real save is observed with strace and judged by the same predicate.",
+        "design_ref": "DESIGN.md §4 C13",
+        "note": "Trusted: Lean kernel; correspondence harness, factx, strace parsing; file-system crash model (rename atomic, un-synced tail may be lost).",
+        "technique": "Lean 4 theorem over a file-system crash model + regenerated step order + save/load/continue differential runs + strace-observed save",
+    },
     "C09": {
         "text": "Proof: C09_order_irrelevant / C09_replicas_agree state that, on every state reachable from any genesis, every ABCI call of "
                 "the model yields the same response and the same state whatever order each map is ranged over, so replicas given the same "
